@@ -20,10 +20,10 @@ import (
 
 // Flags selects one admissible reading of what the statements leave open.
 type Flags struct {
-	LoopPerIter     bool // loop body gets a fresh scope per iteration (else one per loop)
-	TrySeparate     bool // try / catch / finally blocks are three sibling scopes (else one shared)
-	FinallyOnAbrupt bool // finally also runs when try body or catch block is left abruptly (return/break/continue/error)
-	DeferErrLast    bool // of several failing deferred calls the last one run supplies the error (else the first)
+	LoopPerIter      bool // loop body gets a fresh scope per iteration (else one per loop)
+	TrySeparate      bool // try / catch / finally blocks are three sibling scopes (else one shared)
+	FinallyOnAbrupt  bool // finally also runs when try body or catch block is left abruptly (return/break/continue/error)
+	DeferErrLast     bool // of several failing deferred calls the last one run supplies the error (else the first)
 	StrayControlNoop bool // a break/continue with no enclosing loop inside the function just ends the call (else it is a run error of the call); either way it never reaches the caller's loop
 
 	// finding flags — deviations from the statements, listed in known_findings.json
@@ -41,7 +41,10 @@ func unspec(format string, a ...interface{}) { panic(Unspec{fmt.Sprintf(format, 
 type Value interface{}
 
 type (
-	List    struct{ E []Value; Frozen bool }
+	List struct {
+		E      []Value
+		Frozen bool
+	}
 	Map     struct{ M map[string]Value }
 	Closure struct {
 		F   *gen.FuncLit
@@ -61,8 +64,8 @@ type (
 		V   Value
 		Get func() Value
 	}
-	Poison  struct{} // a value the statements do not determine (fall-off-the-end results, statement values)
-	Truth   struct{ B bool } // result of && / ||: only its truthiness is specified
+	Poison struct{}         // a value the statements do not determine (fall-off-the-end results, statement values)
+	Truth  struct{ B bool } // result of && / ||: only its truthiness is specified
 )
 
 type Scope struct {
@@ -188,12 +191,12 @@ type Interp struct {
 
 // Outcome of a model run.
 type Outcome struct {
-	Trace      []string
-	GTrace     []string
-	Value      string // rendered final value; "" when undetermined
-	HasValue   bool
-	Err        string // "" | "T<n>" | "<rt>"
-	Unspec     string // non-empty: the program left the determined domain
+	Trace       []string
+	GTrace      []string
+	Value       string // rendered final value; "" when undetermined
+	HasValue    bool
+	Err         string // "" | "T<n>" | "<rt>"
+	Unspec      string // non-empty: the program left the determined domain
 	UsedFinding bool
 }
 
@@ -221,6 +224,8 @@ func Run(prog []gen.Stmt, fl Flags) (out Outcome) {
 	for name, h := range gen.Hosts {
 		global.define(name, &Host{h})
 	}
+	// nm: the nil typed map the host hands in (reads of any key yield nil; never stored into or rendered)
+	global.define("nm", &Map{M: map[string]Value{}})
 	top := newScope(global)
 	fr := &frame{}
 	r := in.block(prog, top, fr)
